@@ -118,7 +118,7 @@ let eval_grammar case impl =
     let input = bytes_of_hex bytes in
     let model = request_line input in
     if hex_of_bytes (rendered @ bytes_of_hex trailing) <> bytes then ("RENDER-MISMATCH " ^ model, [("HARNESS", "-")])
-    else if not (M.rfc_head h && M.cl_consistent (M.field_pairs h)) then (model, [])
+    else if not (M.rfc_head h && M.cl_consistent_rfc (M.field_pairs h)) then (model, [])
     else begin
       let f = kv impl in
       let exp_h = M.headers_of (M.field_pairs h) in
